@@ -129,6 +129,8 @@ class HistTrav(Hist):
                 st.bump(f'task-completed:{t.kind}')
             else:
                 st.bump(f'task-{t.state}')
+                if t.state in ('abandoned', 'hook-raised'):
+                    self.judge_partial(net, t)
         if ntasks > 1:
             st.bump('interleaved-traversals')
         self.res.states.add('sched:' + digest([(t.kind, t.inverse) for t in tasks] + order))
@@ -176,6 +178,26 @@ class HistTrav(Hist):
             kw['on_traversal_end_hook'] = lambda states: fire('end', None)
         fn = real.dfs if t.kind == 'dfs' else real.bfs
         return iter(fn(t.start, **kw))
+
+    def judge_partial(self, net: Net, t: Task):
+        """A traversal that was cut short (consumer gone, hook raised) has said less, never something wrong:
+        what it yielded is reachable and not repeated, and whatever reached the unvisited hook is unreachable."""
+        V = lambda oracle, disc, msg: self.violate('C20', oracle, f'{t.kind}:{disc}', f'{t.desc()} [{t.state}]: {msg}')
+        if t.kind == 'top_sort':
+            return
+        start = t.start
+        if start is None:
+            start = list(net.inputs) if t.inverse else list(net.outputs)
+        want = net.reach(start, inverse=t.inverse)
+        if len(set(t.yields)) != len(t.yields):
+            return V('reachability', 'gate-yielded-twice', f'{[g for g in t.yields if t.yields.count(g) > 1][:3]}')
+        if not set(t.yields) <= want:
+            return V('reachability', 'wrong-set', f'extra {sorted(set(t.yields) - want)[:3]}')
+        unv = [l for _, w, l in t.events if w == 'unvisited']
+        bad = [l for l in unv if l in want]
+        if bad:
+            return V('hooks', 'unvisited-got-reachable-gate', f'the unvisited hook received {bad[:3]}, reachable from the start set')
+        self.res.stats.probes.bump('partial-traversal-judged')
 
     def judge_task(self, net: Net, t: Task):
         V = lambda oracle, disc, msg: self.violate('C20', oracle, f'{t.kind}:{disc}', f'{t.desc()}: {msg}')
